@@ -89,7 +89,7 @@ def showOut : Out → String
   | .unit => "ok"
   | .val o => showOpt o
   | .bool b => if b then "true" else "false"
-  | .vals l => "vals " ++ (if l.isEmpty then "-" else String.intercalate "|" (l.map (fun o => match o with
+  | .vals l => "vals " ++ (if l.isEmpty then "." else String.intercalate "|" (l.map (fun o => match o with
       | some v => hexOfNats v | none => "none")))
   | .err e => showErr e
 
@@ -106,6 +106,12 @@ def parseItems (s : String) : Option (List (Nat × List Nat)) :=
       | some k, some v => some ((k, v) :: l)
       | _, _ => none
     | _, _ => none) (some [])
+
+/-- a content key is exactly 16 bytes -/
+def parseCk (s : String) : Option (List Nat) :=
+  match parseHexNat s with
+  | some l => if l.length = 16 then some l else none
+  | none => none
 
 def parseOp (toks : List String) : Option Op :=
   match toks with
@@ -124,10 +130,10 @@ def parseOp (toks : List String) : Option Op :=
   | ["clear"] => some .clear
   | ["bget", ks] => (parseKeys ks).map .batchGet
   | ["bput", kvs] => (parseItems kvs).map .batchPut
-  | ["putv", k, ck, v] => match k.toNat?, parseHexNat ck, parseHexNat v with
+  | ["putv", k, ck, v] => match k.toNat?, parseCk ck, parseHexNat v with
     | some k, some ck, some v => some (.putv k ck v) | _, _, _ => none
   | ["getv", k, ck] => match k.toNat? with
-    | some k => if ck == "-" then some (.getv k none) else (parseHexNat ck).map (fun c => .getv k (some c))
+    | some k => if ck == "-" then some (.getv k none) else (parseCk ck).map (fun c => .getv k (some c))
     | none => none
   | ["fdel", i, k] => match i.toNat?, k.toNat? with
     | some i, some k => some (.fdel i k) | _, _ => none
